@@ -47,6 +47,36 @@ def run_hook_closure(ctx, cpath, extra=None, oracle=None):
     return outs, I, b
 
 
+_HOOKS_BY_NUM = {}
+
+
+def hook_closures_by_syscall(ctx):
+    """{syscall number: closure path} of the built-in native hooks: every top-level closure of the syscall helper
+    module with the native-hook signature is interpreted once; the number is the constant its RAX test selects.
+    Independent of the names of the registering functions."""
+    key = id(ctx.facts)
+    if key in _HOOKS_BY_NUM:
+        return _HOOKS_BY_NUM[key]
+    facts = ctx.facts
+    out = {}
+    for k, b in sorted(facts.bodies.items()):
+        if b["glue"] or b["kind"] != "Closure" or not k.startswith("helpers::syscalls::") or k.count("{closure#") != 1:
+            continue
+        if b["argc"] != 3:
+            continue
+        try:
+            outs, I, _ = run_hook_closure(ctx, k, None)
+        except Exception:  # noqa
+            continue
+        for o in outs:
+            if o.kind == "return":
+                s_ = rax_selector(facts, o)
+                if s_:
+                    out.setdefault(s_[0], k)
+    _HOOKS_BY_NUM[key] = out
+    return out
+
+
 def hook_result(o):
     """'handled' | 'unhandled' | 'err' | None"""
     v = o.value
@@ -78,14 +108,9 @@ def rax_selector(facts, o):
 
 def run(ctx):
     ck, facts = ctx.check, ctx.facts
-    try:
-        reg = facts.method(AXE, "register_brk")
-    except KeyError as e:
-        ck.violation("C13.select", "brk hook", str(e))
-        return
-    cl = facts.closures_of(reg["path"])
-    if len(cl) != 1:
-        ck.violation("C13.select", "brk hook", "register_brk has %d closures" % len(cl))
+    cl = [hook_closures_by_syscall(ctx).get(12)]
+    if cl[0] is None:
+        ck.violation("C13.select", "brk hook", "no native hook closure selects RAX == 12 (brk)")
         return
     alloc = facts.method(AXE, "mem_init_zero_anywhere")["path"]
     resize = facts.method(AXE, "mem_resize_section")["path"]
